@@ -128,18 +128,45 @@ def _inject(t, target):
     return fired, undo
 
 
-def _one_history(ctx, rep, rng, path, model_ok, hi):
+# directed histories, run first (each is a shape in which a different wrong shortcut would show)
+CORPUS = [
+    # a delete+append commit is labelled "append" yet drops its parent's manifests; the parent stays retained through a collection
+    ["append", "append2", "delete+append:whole", "gc", "append", "gc"],
+    # partial delete → rewritten manifest (added count 0) carries survivors; older snapshots expire; collection; re-read
+    ["append2", "append2", "delete:partial", "append", "expire:all", "gc", "delete:partial", "gc"],
+    # deleting a delete-snapshot repoints an append child past it; collection must still protect the grandparent's files
+    ["append", "append", "delete:whole", "append", "delsnap:3", "gc", "delsnap:1", "gc"],
+    # equal timestamps + timestamp lookups; delete current repeatedly down to empty, then go on
+    ["append@0", "append@0", "append@0", "delcur", "delcur", "delcur", "append", "gc"],
+    # expiry exactly at a snapshot's timestamp keeps it (>= cutoff), one below drops nothing more
+    ["append@100", "append@100", "append@100", "expire:ts2", "gc", "expire:ts2", "append+expire:ts3", "gc"],
+    # failed commits between real ones, cleaned by collection, then deletes of whole manifests
+    ["append", "failed-append", "append2", "failed-delete", "gc", "delete:whole", "failed-append", "gc", "delcur", "gc"],
+]
+
+
+def _one_history(ctx, rep, rng, path, model_ok, hi, script=None):
     with VClock() as clock:
         clock.now_ms = 1000
         t = tablekit.create(path)
         h = Hist(path)
         now = 1000
         trace = []
-        steps = rng.randint(4, 9 if not ctx.thorough else 24)
+        steps = len(script) if script else rng.randint(4, 9 if not ctx.thorough else 24)
         for si in range(steps):
-            kind = rng.choice(["append", "append", "append2", "delete", "delete", "delete+append", "append+expire", "expire", "delsnap",
-                               "delcur", "failed-append", "failed-delete", "gc", "reopen"])
-            now += rng.choice([0, 0, 100, 1000])
+            arg = None
+            if script:
+                kind = script[si]
+                dt_ = None
+                if "@" in kind:
+                    kind, dt_ = kind.split("@")
+                if ":" in kind:
+                    kind, arg = kind.split(":")
+                now += int(dt_) if dt_ is not None else 1000
+            else:
+                kind = rng.choice(["append", "append", "append2", "delete", "delete", "delete+append", "append+expire", "expire", "delsnap",
+                                   "delcur", "failed-append", "failed-delete", "gc", "reopen"])
+                now += rng.choice([0, 0, 100, 1000])
             clock.now_ms = now
             d0, m0, l0 = _listing(h.store)
             ids_before = [s.snapshot_id for s in t.metadata_manager.refresh().snapshots]
@@ -162,6 +189,18 @@ def _one_history(ctx, rep, rng, path, model_ok, hi):
                     if not cur_paths:
                         continue
                     victims = rng.sample(cur_paths, rng.randint(1, min(3, len(cur_paths))))
+                    if arg in ("partial", "whole"):
+                        v0 = reader.view(path)
+                        cur_s = [s_ for s_ in v0["snaps"] if s_["id"] == v0["cur"]][0]
+                        _ml, _ms, files_ = reader.snapshot_files(h.store, {"manifest_list": cur_s["mlist"]})
+                        groups = {}
+                        for p_, _e, mp_ in files_:
+                            groups.setdefault(mp_, []).append(p_)
+                        multi = [g for g in groups.values() if len(g) >= 2]
+                        if arg == "partial" and multi:
+                            victims = [multi[0][0]]
+                        else:
+                            victims = list(next(iter(groups.values())))
                     vt = "+".join(str(h.data_ord[v]) for v in victims)
                     form = rng.choice(["/", ""])
                     if kind == "failed-delete":
@@ -188,6 +227,8 @@ def _one_history(ctx, rep, rng, path, model_ok, hi):
                         tok = f"c:{now}:{h.next_snap}:-:{1 if kind == 'delete+append' else 0}:{vt}"
                 elif kind == "append+expire":
                     cutoff = max(0, now - rng.choice([0, 100, 1000, 5000]))
+                    if arg and arg.startswith("ts"):
+                        cutoff = h.recorded[int(arg[2:])][4]
                     with t.new_transaction() as tx:
                         tx.append_data(tablekit.rows(1, start=si * 100))
                         tx.expire_snapshots(cutoff)
@@ -195,6 +236,10 @@ def _one_history(ctx, rep, rng, path, model_ok, hi):
                     tok = f"c:{now}:{h.next_snap}:{cutoff}:1:-"
                 elif kind == "expire":
                     cutoff = max(0, now - rng.choice([0, 100, 1000, 5000]))
+                    if arg == "all":
+                        cutoff = now + 1
+                    elif arg and arg.startswith("ts"):
+                        cutoff = h.recorded[int(arg[2:])][4]
                     with t.new_transaction() as tx:
                         tx.expire_snapshots(cutoff)
                         tx.commit()
@@ -204,6 +249,11 @@ def _one_history(ctx, rep, rng, path, model_ok, hi):
                         continue
                     md = t.metadata_manager.refresh()
                     victim = md.current_snapshot_id if kind == "delcur" else rng.choice(ids_before)
+                    if arg is not None:
+                        real = [i for i, o in h.snap_ord.items() if o == int(arg) and i in ids_before]
+                        if not real:
+                            continue
+                        victim = real[0]
                     if victim in (None, -1):
                         continue
                     if victim == md.current_snapshot_id:
@@ -305,6 +355,15 @@ def _one_history(ctx, rep, rng, path, model_ok, hi):
                 except Exception as e:      # noqa: BLE001
                     rep.violate("C09:retained-snapshot-unreadable", f"after {kind}: library read of snapshot #{o}: {type(e).__name__}: {str(e)[:100]}", case)
                     return
+            # ---- oracle 1b: an expiry removes only snapshots OLDER than its cutoff (and never the current one)
+            if kind in ("expire", "append+expire") and tok and tok[0] in "ce":
+                cutoff_ = int(tok.split(":")[1]) if tok.startswith("e:") else int(tok.split(":")[3])
+                still = {s["id"] for s in v["snaps"]}
+                for i_ in ids_before:
+                    if i_ not in still and h.recorded[h.snap_ord[i_]][4] >= cutoff_:
+                        rep.violate("C09:expiry-dropped-a-snapshot-not-older-than-the-cutoff",
+                                    f"expire_snapshots({cutoff_}) removed snapshot #{h.snap_ord[i_]} whose timestamp is {h.recorded[h.snap_ord[i_]][4]}", case)
+                        return
             # ---- oracle 2: lookup by timestamp = most recently committed retained snapshot not newer than t
             retained = [(h.recorded[h.snap_ord[s["id"]]][4], h.recorded[h.snap_ord[s["id"]]][5], s["id"]) for s in v["snaps"]]
             for q in sorted({ts for ts, _c, _i in retained} | {ts - 1 for ts, _c, _i in retained} | {now + 5, 0}):
@@ -341,7 +400,9 @@ def _one_history(ctx, rep, rng, path, model_ok, hi):
 
 def run(ctx, model_ok):
     rep = Report()
-    rep.rule = ("real-table histories of 4–9 (thorough –24) operations over {append 1–2 files, delete 1–3 files, delete+append, append+expire, "
+    rep.rule = ("6 directed histories (delete+append over a retained parent, partial delete → rewritten manifest → expiry → collection, deleting "
+                "a delete-snapshot under an append child, equal timestamps and delete-current down to empty, expiry exactly at a snapshot's "
+                "timestamp, failed commits between real ones) then random real-table histories of 4–9 (thorough –24) operations over {append 1–2 files, delete 1–3 files, delete+append, append+expire, "
                 "expire, delete snapshot, delete CURRENT snapshot, failed append / delete (fault before the manifest, manifest-list or metadata "
                 "write), collection (grace 0 / 1 s on aged files), reopen} with equal and increasing timestamps; after every step every retained "
                 "snapshot is re-read by the independent reader and through the library and compared with the record made at its commit; "
@@ -349,7 +410,12 @@ def run(ctx, model_ok):
     rng = ctx.rng("hist")
     base = scratch_dir("c09-")
     try:
-        for hi in range(ctx.budget(40, 600)):
+        for ci, script in enumerate(CORPUS):
+            p = os.path.join(base, f"c{ci}")
+            _one_history(ctx, rep, rng, p, model_ok, -1 - ci, script=script)
+            rep.distribution["corpus-history"] += 1
+            shutil.rmtree(p, ignore_errors=True)
+        for hi in range(ctx.budget(120, 1500)):
             p = os.path.join(base, f"h{hi}")
             _one_history(ctx, rep, rng, p, model_ok, hi)
             shutil.rmtree(p, ignore_errors=True)
